@@ -20,6 +20,8 @@ Rust rules encoded (trusted, exercised by correspondence B whenever rustc compil
 * a destructuring pattern of variant `k` matches `&Self` (binding `&FieldType`s) or, in its `ref mut` form,
   `&mut Self` (binding `&mut FieldType`s); the shared form also matches `&mut Self`;
 * all arms of a `match` and both branches of an `if` have the same type, `!` coerces to anything;
+* a `match` is exhaustive (E0004 otherwise): some arm is irrefutable, or the scrutinee is `&Self` / `&mut Self` and every
+  variant has an arm; the pattern of a `let` is irrefutable;
 * a braced struct literal lists every field once, in order, with the field's type; a tuple constructor takes the
   field types in order; a unit path is a value only for a unit variant;
 * `e as int` needs an integer or a value of a field-less enum; `*e` needs a reference; `==` is used at
@@ -95,6 +97,50 @@ def Pat.allFit (it : Item) : List Pat → Ty → Bool
       | some [] => true
       | _ => false) && Pat.allFit it ps t
 end
+
+mutual
+/-- The pattern matches *every* value of the type (it is irrefutable there). -/
+def Pat.total (it : Item) : Pat → Ty → Bool
+  | .wild, _ => true
+  | .rest, _ => true
+  | .bind _ _, _ => true
+  | .ctor k _ _, t => isSelfRef t && it.variants.length == 1 && k == 0
+  | .ctorAny k, t => isSelfRef t && it.variants.length == 1 && k == 0
+  | .tuple ps, .pair a b => Pat.totals it ps [a, b]
+  | .or ps, t => Pat.anyTotal it ps t
+  | _, _ => false
+def Pat.totals (it : Item) : List Pat → List Ty → Bool
+  | [], [] => true
+  | p :: ps, t :: ts => p.total it t && Pat.totals it ps ts
+  | _, _ => false
+def Pat.anyTotal (it : Item) : List Pat → Ty → Bool
+  | [], _ => false
+  | p :: ps, t => p.total it t || Pat.anyTotal it ps t
+end
+
+mutual
+/-- The pattern matches every value of variant `k` (of a reference to the item). -/
+def Pat.coversVariant (k : Nat) : Pat → Bool
+  | .wild => true
+  | .rest => true
+  | .bind _ _ => true
+  | .ctor k' _ _ => k' == k
+  | .ctorAny k' => k' == k
+  | .or ps => Pat.anyCovers k ps
+  | _ => false
+def Pat.anyCovers (k : Nat) : List Pat → Bool
+  | [] => false
+  | p :: ps => p.coversVariant k || Pat.anyCovers k ps
+end
+
+def Arm.pat : Arm → Pat
+  | .mk p _ _ => p
+
+/-- rustc's exhaustiveness check on the fragment: some arm is irrefutable, or the scrutinee is a reference to the item
+and every variant is covered by some arm. -/
+def Arms.exhaustive (it : Item) (t : Ty) (arms : List Arm) : Bool :=
+  arms.any (fun a => a.pat.total it t) ||
+    (isSelfRef t && (List.range it.variants.length).all fun k => arms.any fun a => a.pat.coversVariant k)
 
 def isFieldRef : Ty → Bool
   | .ref (.field _ _) => true
@@ -215,7 +261,7 @@ def Expr.ty (cx : TyCx) (Γ : TEnv) : Expr → Option Ty
     | _, _, _ => none
   | .match_ s arms =>
     match s.ty cx Γ with
-    | some ts => Arm.tys cx Γ ts arms
+    | some ts => if Arms.exhaustive cx.it ts arms then Arm.tys cx Γ ts arms else none
     | none => none
   | .block stmts tail =>
     match Stmt.checks cx Γ stmts with
@@ -272,7 +318,7 @@ def FieldInit.check (cx : TyCx) (Γ : TEnv) (k : Nat) (j : Nat) : List FieldInit
 def Stmt.check (cx : TyCx) (Γ : TEnv) : Stmt → Option TEnv
   | .let_ p e =>
     match e.ty cx Γ with
-    | some t => (p.bindTy cx.it t).map (· ++ Γ)
+    | some t => if p.total cx.it t then (p.bindTy cx.it t).map (· ++ Γ) else none
     | none => none
   | .semi e => if (e.ty cx Γ).isSome then some Γ else none
   | .ifRet c r =>
